@@ -22,3 +22,55 @@ pub open spec fn db_minus_event(d0: Db, d1: Db, e: Seq<u8>) -> bool {
     forall|table: int, k: Seq<u8>| #![trigger db_get(d1, table, k)] 1 <= table <= 9 ==>
         db_get(d1, table, k) == (if is_event_key(e, table, k) { None::<u64> } else { db_get(d0, table, k) })
 }
+// ---- range scans over a table ----
+pub open spec fn in_range(tab: Table, lo: Seq<u8>, hi: Seq<u8>, k: Seq<u8>) -> bool {
+    tab.contains_key(k) && bytes_le(lo, k) && bytes_lt(k, hi)
+}
+// (table,k) is a key of one of the first n events yielded by a scan (optionally only those of kind `only_kind`)
+pub open spec fn removed_upto(items: Seq<(Seq<u8>, u64)>, w: World, only_kind: Option<u16>, table: int, k: Seq<u8>, n: int) -> bool
+    decreases n
+{
+    n > 0 && (removed_upto(items, w, only_kind, table, k, n - 1)
+        || (scan_selects(w, only_kind, items[n - 1].1) && is_event_key(w.events[items[n - 1].1 as int], table, k)))
+}
+pub open spec fn scan_selects(w: World, only_kind: Option<u16>, off: u64) -> bool {
+    match only_kind { None => true, Some(kd) => ev_kind(w.events[off as int]) == kd }
+}
+// (table,k) is a key of some event whose entry lies in the range (optionally only events of kind `only_kind`)
+pub open spec fn removed_by_range(tab: Table, lo: Seq<u8>, hi: Seq<u8>, w: World, only_kind: Option<u16>, table: int, k: Seq<u8>) -> bool {
+    exists|k0: Seq<u8>| #[trigger] in_range(tab, lo, hi, k0) && scan_selects(w, only_kind, tab[k0])
+        && is_event_key(w.events[tab[k0] as int], table, k)
+}
+pub proof fn lemma_removed_upto_range(items: Seq<(Seq<u8>, u64)>, tab: Table, lo: Seq<u8>, hi: Seq<u8>, w: World,
+        only_kind: Option<u16>, table: int, k: Seq<u8>, n: int)
+    requires range_items_ok(items, tab, lo, hi, false), 0 <= n <= items.len()
+    ensures removed_upto(items, w, only_kind, table, k, n) <==>
+        (exists|i: int| 0 <= i < n && scan_selects(w, only_kind, items[i].1) && #[trigger] is_event_key(w.events[items[i].1 as int], table, k))
+    decreases n
+{
+    if n > 0 {
+        lemma_removed_upto_range(items, tab, lo, hi, w, only_kind, table, k, n - 1);
+        if scan_selects(w, only_kind, items[n - 1].1) && is_event_key(w.events[items[n - 1].1 as int], table, k) {
+            assert(is_event_key(w.events[items[n - 1].1 as int], table, k));
+        }
+    }
+}
+pub proof fn lemma_removed_all_range(items: Seq<(Seq<u8>, u64)>, tab: Table, lo: Seq<u8>, hi: Seq<u8>, w: World,
+        only_kind: Option<u16>, table: int, k: Seq<u8>)
+    requires range_items_ok(items, tab, lo, hi, false)
+    ensures removed_upto(items, w, only_kind, table, k, items.len() as int) <==> removed_by_range(tab, lo, hi, w, only_kind, table, k)
+{
+    lemma_removed_upto_range(items, tab, lo, hi, w, only_kind, table, k, items.len() as int);
+    if removed_upto(items, w, only_kind, table, k, items.len() as int) {
+        let i = choose|i: int| 0 <= i < items.len() && scan_selects(w, only_kind, items[i].1) && #[trigger] is_event_key(w.events[items[i].1 as int], table, k);
+        assert(tab.contains_key(items[i].0));
+        assert(in_range(tab, lo, hi, items[i].0));
+    }
+    if removed_by_range(tab, lo, hi, w, only_kind, table, k) {
+        let k0 = choose|k0: Seq<u8>| #[trigger] in_range(tab, lo, hi, k0) && scan_selects(w, only_kind, tab[k0]) && is_event_key(w.events[tab[k0] as int], table, k);
+        assert(tab.contains_key(k0));
+        let i = choose|i: int| 0 <= i < items.len() && #[trigger] items[i].0 == k0;
+        assert(tab.contains_key(items[i].0));
+        assert(is_event_key(w.events[items[i].1 as int], table, k));
+    }
+}
